@@ -177,10 +177,14 @@ def run(facts, tier):
                         "text, comment or PI nodes", t["file"], t["line"], {}))
     # ---- predicate frames
     st5 = res.rule("C05-frames", instances=0)
-    callers = [x for x in facts.fns.values() if x["crate"] == "xml_xpath" and "body" in x and
-               any(tt.get("callee") and facts.callee_name(tt["callee"]) == "xml_xpath::eval::eval_predicate" for _, tt in facts.mir_calls(x))]
+    # the predicate test itself is found by what it does, not by its name: the evaluator function (not the function library)
+    # that reads the context position to decide a numeric predicate
+    GETPOS = "xml_xpath::eval::model::Context::get_position"
+    callers = [x for x in facts.fns.values() if x["crate"] == "xml_xpath" and "body" in x and x["path"].startswith("xml_xpath::eval::")
+               and not x["path"].startswith(("xml_xpath::eval::func", "xml_xpath::eval::model")) and
+               any(tt.get("callee") and facts.callee_name(tt["callee"]) == GETPOS for _, tt in facts.mir_calls(x))]
     if not callers:
-        raise BrokenCheck("C05-frames: no caller of eval_predicate")
+        raise BrokenCheck("C05-frames: no evaluator function reads the context position (Context::get_position)")
     def frame_check(g, target_name, need_pos, need_size):
         """Every call of `target_name` in g has the frames it needs: need_pos = "push" (a push_position(index+1) must dominate
         it), ("arg", i, k) (the position is argument i of the call, handed on +k: index+1 in total), or None; need_size: a
@@ -206,7 +210,9 @@ def run(facts, tier):
                 up_size = True
             else:
                 problems.append("%s is not dominated by push_size" % short)
-        if need_pos == "push":
+        if need_pos == "push" and not pp:
+            up_pos = "push"            # nothing pushed here: the frame has to be there when this function is called
+        elif need_pos == "push":
             if not all(any(b in dom[e] for b, _ in pp) for e, _ in ev):
                 problems.append("%s is not dominated by push_position" % short)
             affs = [c14.affine(facts, g, defs, tt["args"][1]) for _, tt in pp]
@@ -226,7 +232,7 @@ def run(facts, tier):
                     problems.append("the position handed to %s is index%+d, expected index+1" % (short, a[1] + k))
         return problems, (up_pos, up_size)
 
-    work = [(g, "xml_xpath::eval::eval_predicate", "push", True) for g in callers]
+    work = [(g, GETPOS, "push", True) for g in callers]
     depth = 0
     while work and depth < 4:
         nxt = []
